@@ -2,6 +2,7 @@
 import z3
 
 from pvc.core import Contract, LoopSpec
+from contracts import replay_dynmat as RD
 from contracts.c_dynmat import FC0, NSV, PI
 
 F = "c/derivative_dynmat.c"
@@ -257,6 +258,6 @@ def derivative_block_contract():
             z3.And(c_ >= 0, c_ < 3, p_ >= 0, p_ < n3, q_ >= 0, q_ < n3, z3.Not(z3.And(p_ >= 3 * i, p_ < 3 * i + 3, q_ >= 3 * j, q_ < 3 * j + 3))),
             z3.And(M[c_, p_, q_, 0] == M0[c_, p_, q_, 0], M[c_, p_, q_, 1] == M0[c_, p_, q_, 1])))))
         return out
-    return Contract(F, "get_derivative_dynmat_at_q", tag="[functional]", shapes=DDM_SHAPES, nullable=("ddnac", "dnac"), macros={"PI": PI},
+    return Contract(F, "get_derivative_dynmat_at_q", replay_fn=RD.replay_ddm, tag="[functional]", shapes=DDM_SHAPES, nullable=("ddnac", "dnac"), macros={"PI": PI},
                     requires=req, ensures=ens, modifies=("derivative_dynmat",),
                     loops={3: LoopSpec(inv_k, unfold=lambda V: unfold_T(V, V.v.k)), 5: LoopSpec(inv_l, unfold=unfold_l)}, abstract_mul=True)
